@@ -218,111 +218,126 @@ def run(ctx):
 
 
 def check_fold(ctx, inst, fold, qname, field, reverse):
+    """The router simulation is the hop-by-hop composition of the pair queries: either a loop with a running amount,
+    or `operations.into_iter()[.rev()].try_fold(amount, |acc, op| ..)`; the per-hop code may live in a private helper."""
     P = ctx.P
     body = fold.body
     ops_i = common.param_index_of_type(fold, r"^std::vec::Vec<haloswap::router::SwapOperation>$")
     amt_i = common.param_index_of_type(fold, r"^cosmwasm_std::\S*Uint128$")
-    lps = [l for l in common.loops(P, fold) if l["is_loop"]]
-    if ops_i is None or amt_i is None or len(lps) != 1:
-        inst.fail("%s:shape" % inst.id, fold.path, fold.span, "expected a single loop over the operations with an amount accumulator: unrecognised-idiom")
+    if ops_i is None or amt_i is None:
+        inst.fail("%s:shape" % inst.id, fold.path, fold.span, "anchor-missing: fold parameters (Vec<SwapOperation>, Uint128)")
         return
-    l = lps[0]
-    ads, kind, src = common.iter_chain(l["iter"])
+    lps = [l for l in common.loops(P, fold) if l["is_loop"]]
+    folds = [(b, P.val_call(fold, body, b)) for b, p, fr, t in P.calls(fold) if p and common.last_seg(p) in ("try_fold", "fold") and "Iterator" in p]
+    AMT = P_(fold, amt_i)
+    if len(lps) == 1 and not folds:
+        l = lps[0]
+        ads, kind, src = common.iter_chain(l["iter"])
+        item = l["item_root"]
+        hop_fn = fold
+        form = "loop"
+    elif len(folds) == 1 and not lps:
+        fb, fv = folds[0]
+        ads, kind, src = common.iter_chain(fv[4][0])
+        clo = fv[4][2] if len(fv[4]) > 2 else None
+        if clo is None or clo[0] != "agg" or clo[1] != "closure":
+            inst.fail("%s:fold-closure" % inst.id, fold.path, common.span_of_block_term(fold, fb), "fold is not given a closure: unrecognised-idiom")
+            return
+        hop_fn = P.fn(clo[2])
+        item = P_(hop_fn, 2)
+        if set(ctx.roots(fv[4][1])) != {AMT}:
+            inst.fail("%s:fold-init" % inst.id, fold.path, common.span_of_block_term(fold, fb), "fold starts from %s, expected the quoted amount" % sorted(ctx.roots(fv[4][1])))
+        form = "fold"
+    else:
+        inst.fail("%s:shape" % inst.id, fold.path, fold.span, "expected a single loop (or a single fold) over the operations with a running amount: unrecognised-idiom")
+        return
     names = [a for a, _ in ads]
     if names != (["rev"] if reverse else []) or kind != "into_iter" or set(ctx.roots(src)) != {P_(fold, ops_i)}:
-        inst.fail("%s:iteration" % inst.id, fold.path, common.span_of_block_term(fold, l["next_bb"]), "route is iterated with adaptors %s (expected %s) over %s" % (names, ["rev"] if reverse else [], sorted(ctx.roots(src))))
+        inst.fail("%s:iteration" % inst.id, fold.path, fold.span, "route is iterated with adaptors %s (expected %s) over %s" % (names, ["rev"] if reverse else [], sorted(ctx.roots(src))))
     else:
-        inst.site("%s: operations%s, every element" % (fold.name, ".rev()" if reverse else " in order"))
-    item = l["item_root"]
-    # find the querier call (possibly through one helper)
-    target = None
-    helper = None
-    for b, p, fr, t in P.calls(fold):
-        if p and generic_path(p) == "haloswap::querier::%s" % qname:
-            target = (fold, b, {})
-        elif roles.is_workspace_fn(P, p) and generic_path(p).startswith("halo_router::"):
-            h = P.fn(p) or P.fn(generic_path(p))
-            for b2, p2, fr2, t2 in P.calls(h):
-                if p2 and generic_path(p2) == "haloswap::querier::%s" % qname:
-                    helper = (h, b, b2)
-    ACC = None
-    if target is None and helper is not None:
-        h, hb, qb = helper
-        hv = P.val_call(fold, body, hb)
-        sub = {P_(h, i): "|".join(sorted(ctx.roots(a))) for i, a in enumerate(hv[4])}
-        qv = P.val_call(h, h.body, qb)
-        pv = [(b, P.val_call(h, h.body, b)) for b, p, fr, t in P.calls(h) if p and generic_path(p) == "haloswap::querier::query_pair_info"]
-        fn_, qb_ = h, qb
-        # the private helper is inlined by the provenance engine: the accumulator shows the pair query itself
-        acc_root = "C:haloswap::querier::%s@%s:bb%d.%s" % (qname, h.path, qb, field)
-        if not common.pure_helper(P, h):
-            acc_root = "C:%s@%s:bb%d" % (h.path, fold.path, hb)
-        # the helper returns the queried field
-        rets = set()
-        for (b, i, cls, v) in common.ok_exit_blocks(P, h):
-            rets |= set(ctx.roots(v, (("v", "Ok"), ("f", 0))))
-        if rets != {"C:haloswap::querier::%s@%s:bb%d.%s" % (qname, h.path, qb, field)}:
-            inst.fail("%s:helper-return" % inst.id, h.path, h.span, "helper returns %s, expected the pair query's %s" % (sorted(rets), field))
-    elif target is not None:
-        fn_, qb_, sub = fold, target[1], {}
-        qv = P.val_call(fold, body, qb_)
-        pv = [(b, P.val_call(fold, body, b)) for b, p, fr, t in P.calls(fold) if p and generic_path(p) == "haloswap::querier::query_pair_info"]
-        acc_root = "C:haloswap::querier::%s@%s:bb%d.%s" % (qname, fold.path, qb_, field)
-    else:
-        inst.fail("%s:no-query" % inst.id, fold.path, fold.span, "the fold never calls the pair %s query" % qname)
+        inst.site("%s: operations%s, every element (%s form)" % (fold.name, ".rev()" if reverse else " in order", form))
+    # the per-hop query: in hop_fn or in a private helper it calls
+    sites = []
+    for f2 in [hop_fn] + [P.fn(p) or P.fn(generic_path(p)) for b, p, fr, t in P.calls(hop_fn) if roles.is_workspace_fn(P, p) and generic_path(p).startswith("halo_router::")]:
+        for b2, p2, fr2, t2 in P.calls(f2):
+            if p2 and generic_path(p2) == "haloswap::querier::%s" % qname:
+                sites.append((f2, b2))
+    if len(sites) != 1:
+        inst.fail("%s:no-query" % inst.id, fold.path, fold.span, "expected one pair %s query per hop, found %d" % (qname, len(sites)))
         return
+    qf, qb = sites[0]
+    QROOT = "C:haloswap::querier::%s@%s:bb%d.%s" % (qname, qf.path, qb, field)
+    sub = {}
+    if qf.path != hop_fn.path:
+        hb = [b for b, p, fr, t in P.calls(hop_fn) if p and (P.fn(p) or P.fn(generic_path(p))) is not None and (P.fn(p) or P.fn(generic_path(p))).path == qf.path]
+        hv = P.val_call(hop_fn, hop_fn.body, hb[0])
+        sub = {P_(qf, i): "|".join(sorted(ctx.roots(a))) for i, a in enumerate(hv[4])}
+        if not common.pure_helper(P, qf):
+            QROOT_CALLER = "C:%s@%s:bb%d" % (qf.path, hop_fn.path, hb[0])
+        else:
+            QROOT_CALLER = QROOT
+        rets = set()
+        for (b, i, cls, v) in common.ok_exit_blocks(P, qf):
+            rets |= set(ctx.roots(v, (("v", "Ok"), ("f", 0))))
+        if rets != {QROOT}:
+            inst.fail("%s:helper-return" % inst.id, qf.path, qf.span, "helper returns %s, expected the pair query's %s" % (sorted(rets), field))
+    else:
+        QROOT_CALLER = QROOT
 
     def R(v, path=()):
         out = set()
         for r in ctx.roots(v, path):
-            for k_, s_ in sub.items():
+            for k_, s_ in sorted(sub.items(), key=lambda kv: -len(kv[0])):
                 if r == k_ or r.startswith(k_ + ".") or r.startswith(k_ + "~") or r.startswith(k_ + "["):
                     r = s_ + r[len(k_):]
                     break
             out |= set(r.split("|")) if "|" in r and not r.startswith("A:") else {r}
         return out
-    acc = {P_(fold, amt_i), acc_root}
+    acc = {AMT, QROOT_CALLER} if form == "loop" else {P_(hop_fn, 1)}
+    qv = P.val_call(qf, qf.body, qb)
+    pv = [(b, P.val_call(qf, qf.body, b)) for b, p, fr, t in P.calls(qf) if p and generic_path(p) == "haloswap::querier::query_pair_info"]
     if len(pv) != 1:
-        inst.fail("%s:pair-lookup" % inst.id, fn_.path, fn_.span, "expected one factory Pair query per hop, found %d" % len(pv))
+        inst.fail("%s:pair-lookup" % inst.id, qf.path, qf.span, "expected one factory Pair query per hop, found %d" % len(pv))
         return
     pb, pvv = pv[0]
     fac = R(pvv[4][1])
     if fac != {"human(load(I:halo_router::state::CONFIG).halo_factory)"}:
-        inst.fail("%s:factory" % inst.id, fn_.path, common.span_of_block_term(fn_, pb), "pairs are looked up at %s, expected the configured factory" % sorted(fac))
-    infos = "|".join(sorted(R(pvv[4][2])))
-    want_infos = "A:array[%s~HaloSwap.offer_asset_info;%s~HaloSwap.ask_asset_info]" % (item, item)
-    if infos.replace(" ", "") != want_infos:
-        # through a helper the array is built from its parameters
-        arr = pvv[4][2]
-        el = []
-        if arr[0] == "agg" and arr[1] == "array":
-            el = ["|".join(sorted(R(x))) for _, x in arr[3]]
-        if el != ["%s~HaloSwap.offer_asset_info" % item, "%s~HaloSwap.ask_asset_info" % item]:
-            inst.fail("%s:pair-assets" % inst.id, fn_.path, common.span_of_block_term(fn_, pb), "pair is looked up for %s, expected [operation.offer, operation.ask]" % (el or infos[:200]))
-        else:
-            inst.site("pair ⊢ factory.Pair([op.offer, op.ask])")
+        inst.fail("%s:factory" % inst.id, qf.path, common.span_of_block_term(qf, pb), "pairs are looked up at %s, expected the configured factory" % sorted(fac))
+    arr = pvv[4][2]
+    el = ["|".join(sorted(R(x))) for _, x in arr[3]] if arr[0] == "agg" and arr[1] == "array" else []
+    if el != ["%s~HaloSwap.offer_asset_info" % item, "%s~HaloSwap.ask_asset_info" % item]:
+        inst.fail("%s:pair-assets" % inst.id, qf.path, common.span_of_block_term(qf, pb), "pair is looked up for %s, expected [operation.offer, operation.ask]" % (el or sorted(R(arr)))[:300])
     else:
         inst.site("pair ⊢ factory.Pair([op.offer, op.ask])")
     tgt = R(qv[4][1])
-    if tgt != {"C:haloswap::querier::query_pair_info@%s:bb%d.contract_addr" % (fn_.path, pb)}:
-        inst.fail("%s:query-target" % inst.id, fn_.path, common.span_of_block_term(fn_, qb_), "the pair query goes to %s, expected the looked-up pair" % sorted(tgt))
+    if tgt != {"C:haloswap::querier::query_pair_info@%s:bb%d.contract_addr" % (qf.path, pb)}:
+        inst.fail("%s:query-target" % inst.id, qf.path, common.span_of_block_term(qf, qb), "the pair query goes to %s, expected the looked-up pair" % sorted(tgt))
     ainfo = R(qv[4][2], (("f", "info"),))
     aamt = R(qv[4][2], (("f", "amount"),))
     want_info = {"%s~HaloSwap.%s" % (item, "ask_asset_info" if reverse else "offer_asset_info")}
     if ainfo != want_info:
-        inst.fail("%s:query-asset" % inst.id, fn_.path, common.span_of_block_term(fn_, qb_), "queried asset ⊢ %s, expected the operation's %s asset" % (sorted(ainfo), "ask" if reverse else "offer"))
+        inst.fail("%s:query-asset" % inst.id, qf.path, common.span_of_block_term(qf, qb), "queried asset ⊢ %s, expected the operation's %s asset" % (sorted(ainfo), "ask" if reverse else "offer"))
     elif aamt != acc:
-        inst.fail("%s:query-amount" % inst.id, fn_.path, common.span_of_block_term(fn_, qb_), "queried amount ⊢ %s, expected the running amount %s" % (sorted(aamt), sorted(acc)))
+        inst.fail("%s:query-amount" % inst.id, qf.path, common.span_of_block_term(qf, qb), "queried amount ⊢ %s, expected the running amount %s" % (sorted(aamt), sorted(acc)))
     else:
         inst.site("query(pair, Asset{%s info, running amount})" % ("ask" if reverse else "offer"))
+    if form == "fold":
+        rets = set()
+        for (b, i, cls, v) in common.ok_exit_blocks(P, hop_fn):
+            rets |= set(ctx.roots(v, (("v", "Ok"), ("f", 0))))
+        if rets != {QROOT_CALLER}:
+            inst.fail("%s:fold-step" % inst.id, hop_fn.path, hop_fn.span, "the fold step returns %s, expected the pair query's %s" % (sorted(rets), field))
+        else:
+            inst.site("running amount := response.%s (fold step result)" % field)
+        want_res = {"C:%s@%s:bb%d" % (generic_path(fv[3]), fold.path, fb)}
+    else:
         inst.site("running amount := response.%s" % field)
+        want_res = acc
     for (b, i, cls, v) in common.ok_exit_blocks(P, fold):
-        rs = set()
-        for r in ctx.roots(v, (("v", "Ok"), ("f", 0), ("f", "amount"))):
-            rs.add(r)
-        if rs != acc:
+        rs = set(ctx.roots(v, (("v", "Ok"), ("f", 0), ("f", "amount"))))
+        if rs != want_res:
             inst.fail("%s:result" % inst.id, fold.path, common.span_of_block_term(fold, b), "result amount ⊢ %s, expected the running amount after the last hop" % sorted(rs))
-        elif not body.edge_dominates(l["none_edge"], b):
+        elif form == "loop" and not body.edge_dominates(lps[0]["none_edge"], b):
             inst.fail("%s:early-exit" % inst.id, fold.path, common.span_of_block_term(fold, b), "a success exit is reachable before the whole route was folded")
         else:
-            inst.site("result ⊢ running amount after the loop")
+            inst.site("result ⊢ running amount after the last hop")
